@@ -139,6 +139,17 @@ def grep_forbidden():
             txt = re.sub(r"\(\*.*?\*\)", "", txt, flags=re.S)
             for m in FORBIDDEN.finditer(txt):
                 bad.append("%s: %s" % (os.path.relpath(p, VERIF), m.group(0)))
+            # Variable / Hypothesis / Context outside a Section declare an axiom: track the section nesting
+            stack = []
+            for m in re.finditer(r"(?m)^\s*(Section|End|Variables?|Hypothes[ie]s|Context|Let)\b\s*([A-Za-z0-9_']*)", txt):
+                kw, name = m.group(1), m.group(2)
+                if kw == "Section":
+                    stack.append(name)
+                elif kw == "End":
+                    if stack and stack[-1] == name:
+                        stack.pop()
+                elif kw != "Let" and not stack:
+                    bad.append("%s: %s outside a Section" % (os.path.relpath(p, VERIF), kw))
     cp = open(os.path.join(COQ, "_CoqProject")).read()
     for w in ("type-in-type", "impredicative-set", "-vos", "-vok", "bypass"):
         if w in cp:
